@@ -147,10 +147,11 @@ def gramOf (inv : Inverter R) (pd : PDTest R) (p : GParam) (dim : Nat) (v : NArr
   | .full d F => gramFull inv pd p d F
 
 /-- Gram matrix of the raw value when the `sqrtprec` setter raised *after* `self._sqrtprec = value`
-    (l.215): the raw array stays stored; `raw.T @ raw` (0-d arrays: `@` raises `ValueError`). -/
+    (l.215): the raw array stays stored; `raw.T @ raw` — or the exception met when the Gram matrix is formed / inverted. -/
 def gramRaw : NArr R → Except GErr (SqMat R)
   | .m r c F => .ok (c, fun j k => sumTo r (fun i => F i j * F i k))
-  | _ => .error .valueError
+  | .v _ _ => .error .linAlgError     -- 1-D raw value: `raw.T @ raw` is a 0-d number, `np.linalg.inv` of it raises `LinAlgError`
+  | .s _ => .error .valueError        -- 0-d raw value: `@` refuses scalars
 
 /-- `cuqi.utilities.infer_len`: `len(value)` (rows of a matrix); a 0-d array has no `len` and no `shape[0]` -/
 def inferLen : NArr R → Except GErr Nat
